@@ -523,5 +523,13 @@ def rule_h(prog, rep):
             rep.ok('C11.h', name, g.loc, 'KeyValuePairs -> Set(key, value), Deleted -> Delete(key), each pair, filter_sys = false')
 
 
-RULES = [('C11.a', rule_a), ('C11.b', rule_b), ('C11.c', rule_c), ('C11.d', rule_d), ('C11.e', rule_e), ('C11.f', rule_f),
+def rule_i(prog, rep):
+    rep.rule('C11.i', 'T7', 'the follower re-runs the leader\'s decision: mirrored Set / CSet commands are applied through Worterbuch::set / '
+             'cset, which must hand value, version and force to the store unchanged (= C02.g) - a core that forces writes of the '
+             'internal client id makes the follower accept what the leader refused')
+    from .corefx import core_write_operands
+    core_write_operands(prog, rep, 'C11.i')
+
+
+RULES = [('C11.i', rule_i), ('C11.a', rule_a), ('C11.b', rule_b), ('C11.c', rule_c), ('C11.d', rule_d), ('C11.e', rule_e), ('C11.f', rule_f),
          ('C11.g', rule_g), ('C11.h', rule_h)]
